@@ -465,6 +465,8 @@ pub(crate) fn run(
     }
     #[cfg(feature = "verif-hooks")]
     let verif_partners = verif::partners(prog);
+    #[cfg(feature = "verif-hooks")]
+    let verif_neg_partners = verif::neg_partners(prog);
     let mut backtrack_count = 0;
     let mut pc = 0;
     let mut ix = pos;
@@ -556,6 +558,8 @@ pub(crate) fn run(
                     }
                 }
                 Insn::Split(x, y) => {
+                    #[cfg(feature = "verif-hooks")]
+                    verif::on_split(&mut state, pc, &verif_neg_partners);
                     state.push(y, ix)?;
                     pc = x;
                     continue;
@@ -652,6 +656,9 @@ pub(crate) fn run(
                     // But before, we need to discard all the states that have
                     // been pushed with the look-around, because we don't want to
                     // explore them.
+                    #[cfg(feature = "verif-hooks")]
+                    let verif_neg_depth =
+                        verif::before_fail_neg(&mut state, pc, &verif_neg_partners);
                     loop {
                         let (popped_pc, _) = state.pop();
                         if popped_pc == pc + 1 {
@@ -661,6 +668,8 @@ pub(crate) fn run(
                             break;
                         }
                     }
+                    #[cfg(feature = "verif-hooks")]
+                    verif::after_fail_neg(&mut state, verif_neg_depth);
                     break 'fail;
                 }
                 Insn::Backref(slot) => {
